@@ -34,6 +34,12 @@ SPECS = {
         assumptions=["only the Formal of error(Formal, Context) is compared"],
         explanation="as C01, over programs with catch/3, throw/1 and built-in errors",
     ),
+    "C11": dict(
+        level="proof", props_deps=["Proofs/Groups.v"], model_deps=ENGINE_MODEL_DEPS, trusted=ENGINE_TRUSTED,
+        assumptions=["setof/3 results whose order hinges on the order of distinct unbound variables are not generated",
+                     "group order is compared as produced (first occurrence of each witness)"],
+        explanation="as C01, over programs with findall/bagof/setof in bodies and as queries",
+    ),
     "C07": dict(
         level="proof",
         props_deps=["Proofs/ArithInt.v", "Gen/Arith_gen.v"],
